@@ -60,4 +60,19 @@ func VerifHarness_C08_Deletion() {
 	var want big.Int
 	want.SetBytes(keccak256.Hash(ref))
 	verifAssert(verifBigEq(p.InputHash, want), "deletion InputHash == keccak256(uint32 indices... || uint256 pre || uint256 post)")
+
+	// a second, unrelated parameter set hashed afterwards in the same process (no state may leak from the first call)
+	var q DeletionParameters
+	q.PreRoot = verifNondetBig("pre2")
+	q.PostRoot = verifNondetBig("post2")
+	q.DeletionIndices = []uint32{verifNondetU32("idx2")}
+	err = q.ComputeInputHashDeletion()
+	verifAssert(err == nil, "second ComputeInputHashDeletion returns no error")
+	var ref2 []byte
+	ref2 = append(ref2, verifBE4(q.DeletionIndices[0])...)
+	ref2 = append(ref2, verifBE32(q.PreRoot)...)
+	ref2 = append(ref2, verifBE32(q.PostRoot)...)
+	var want2 big.Int
+	want2.SetBytes(keccak256.Hash(ref2))
+	verifAssert(verifBigEq(q.InputHash, want2), "a second deletion hash computed afterwards is again the hash of its own packing")
 }
